@@ -60,6 +60,73 @@ def _callee_fn(F, t):
     return None
 
 
+_INV_TRAITS = None
+
+
+def new_traits(F):
+    """crate-local traits the reference tree does not have: their methods are plumbing a refactor introduced, to be looked through"""
+    global _INV_TRAITS
+    if _INV_TRAITS is None:
+        p = os.path.join(os.path.dirname(os.path.dirname(os.path.abspath(__file__))), "tables", "known_fns.json")
+        try:
+            _INV_TRAITS = set(json.load(open(p)).get("traits", []))
+        except OSError:
+            _INV_TRAITS = set()
+    return set(getattr(F, "traits", None) or []) - _INV_TRAITS
+
+
+def _ty_unify(pattern, params, concrete):
+    """bind the impl's type parameters by matching its self type against a concrete one; lifetimes are ignored.  None when they do not match"""
+    norm = lambda x: re.sub(r"'[A-Za-z_][A-Za-z0-9_]*\s*,?\s*", "", x).replace("<>", "").replace(" ", "")
+    pat, con = norm(pattern), norm(concrete)
+    rx, names = re.escape(pat), []
+    for n in params:
+        if not re.match(r"^[A-Za-z_][A-Za-z0-9_]*$", n):
+            continue
+        rx2 = re.sub(r"(?<![A-Za-z0-9_:])%s(?![A-Za-z0-9_])" % re.escape(n), "(?P<%s>.+)" % n, rx, count=1)
+        if rx2 != rx:
+            names.append(n)
+            rx = re.sub(r"(?<![A-Za-z0-9_:\)])%s(?![A-Za-z0-9_])" % re.escape(n), "(?P=%s)" % n, rx2)
+    m = re.match("^" + rx + "$", con)
+    if not m:
+        return None
+    return {n: m.group(n) for n in names}
+
+
+def _trait_dispatch(F, t):
+    """`<X as Tr>::m(..)` left unresolved in a generic body (a provided method calling a required one), seen again with X concrete after the
+    body was inlined and instantiated: pick the impl of the NEW trait Tr for X.  Returns (fn, bindings of that fn's generic parameters)"""
+    if t.get("resolved") or not t.get("callee") or not t.get("generics"):
+        return None
+    callee = strip_generics(t["callee"])
+    if "::" not in callee:
+        return None
+    tr, meth = callee.rsplit("::", 1)
+    if tr not in new_traits(F):
+        return None
+    selfty = t["generics"][0]
+    if re.match(r"^(Self|[A-Z][A-Za-z0-9]?)$", selfty):
+        return None                      # still generic
+    hits = []
+    for i in F.impls:
+        if i["trait"] != tr:
+            continue
+        item = next((m for m in i["items"] if m.rsplit("::", 1)[-1] == meth), None)
+        g = F.fns.get(item) if item else F.fns.get(t["callee"])
+        if g is None:
+            continue
+        gp = g.raw.get("gparams") or []
+        b = _ty_unify(i["self"], gp, selfty)
+        if b is not None:
+            hits.append((g, b, item is not None))
+    if len(hits) != 1:
+        return None
+    g, b, own = hits[0]
+    if not own:
+        b = None                          # the provided method again: its parameters are the call's own (Self, ..)
+    return g, b
+
+
 def _with_target(F, f, t):
     """for `LocalKey::with(key, c)`: (callee fn, 'closure'|'fnitem', operand of c)"""
     if strip_generics(callee_name(t)) != WITH or len(t["args"]) < 2:
@@ -212,11 +279,13 @@ def _lower_for_each(F, f, raw, blk, t):
 
 
 
-def _instantiate(graw, t):
+def _instantiate(graw, t, bind=None):
     """a generic helper is inlined at a concrete call: write the call's type arguments into the copied body (types of locals, the type
     arguments recorded at its own calls, drop types), so that `mem::take::<Vec<T>>` inside `SideTable<T>::take_all` reads `Vec<OsIpcChannel>`"""
     gp = graw.get("gparams") or []
     ga = t.get("generics") or []
+    if bind is not None:
+        gp, ga = list(bind.keys()), list(bind.values())
     if not gp or len(gp) != len(ga):
         return graw
     sub = [(n, a) for n, a in zip(gp, ga) if re.match(r"^[A-Za-z_][A-Za-z0-9_]*$", n) and n != a]
@@ -371,7 +440,7 @@ def inlinable(F, g):
         return False
     if g.kind == "Closure":
         return True
-    if g.impl_trait:
+    if g.impl_trait and g.impl_trait not in new_traits(F):
         return False
     if is_anchor(g):
         return False
@@ -461,6 +530,9 @@ def _remap_block(blk, lo, bo, ret_dest, ret_target, src):
     return nb
 
 
+_INT_TYPES = ("i8", "i16", "i32", "i64", "i128", "isize", "u8", "u16", "u32", "u64", "u128", "usize")
+
+
 def inline_function(F, f, cm, done, depth=0):
     """returns a raw dict for f with eligible callees inlined (callees are inlined first, recursively)"""
     if f.path in done:
@@ -507,6 +579,11 @@ def inline_function(F, f, cm, done, depth=0):
             continue
         if t["t"] != "call" or blk["cleanup"]:
             continue
+        if strip_generics(t.get("callee") or "") == "std::default::Default::default" and (t.get("generics") or [""])[0] in _INT_TYPES and t.get("to", -1) >= 0:
+            # `T::default()` of a generic helper instantiated at an integer type is the constant 0
+            blk["st"] = blk["st"] + [{"s": "assign", "lhs": t["dest"], "rv": {"r": "use", "a": [{"k": "c", "t": t["generics"][0], "v": 0, "s": "const 0"}]}, "ln": t.get("ln"), "x": False}]
+            blk["term"] = {"t": "goto", "to": t["to"], "ln": t.get("ln"), "folded": "Default::default"}
+            continue
         if t.get("callee") and "for_each" in t["callee"] and _lower_for_each(F, Fn(raw, F), raw, blk, t):
             inlined.append("<lowered for_each>")
             continue
@@ -516,6 +593,20 @@ def inline_function(F, f, cm, done, depth=0):
         g = _callee_fn(F, t)
         mode = "call"
         wop = None
+        bind = None
+        if g is not None and t.get("resolved_generics") and t.get("resolved") == g.path:
+            gp_ = g.raw.get("gparams") or []
+            if len(gp_) == len(t["resolved_generics"]):
+                bind = dict(zip(gp_, t["resolved_generics"]))
+        td = _trait_dispatch(F, t) if (g is None or (t.get("callee") == g.path and not t.get("resolved"))) else None
+        if td is None and g is not None and not t.get("resolved") and t.get("callee") == g.path and (g.parent or "") in (getattr(F, "traits", None) or []):
+            g = None                      # a provided method called on a type not known here: an impl may override it
+        if td:
+            g, bind = td
+            # name the implementation at the call, so that who-calls-whom questions see it even when the body stays out of line
+            t["resolved"] = g.path
+            t["resolved_local"] = True
+            t["dispatched"] = True
         if g is None:
             w = _with_target(F, Fn(raw, F), t) if strip_generics(callee_name(t)) == WITH else None
             if w:
@@ -542,7 +633,7 @@ def inline_function(F, f, cm, done, depth=0):
             continue
         graw = inline_function(F, g, cm, done, depth + 1)
         if mode == "call":
-            graw = _instantiate(graw, t)
+            graw = _instantiate(graw, t, bind)
         lo = len(locals_)
         bo = len(blocks)
         for l in graw["locals"]:
@@ -604,6 +695,7 @@ class InlinedFacts:
         self.meta = F.meta
         self.adts = F.adts
         self.impls = F.impls
+        self.traits = getattr(F, "traits", [])
         self.consts = F.consts
         cm = callers_map(F)
         done = {}
@@ -614,10 +706,12 @@ class InlinedFacts:
         self.inlined_into = {p: f.raw.get("inlined", []) for p, f in allfns.items() if f.raw.get("inlined")}
         # helpers that were inlined into their only caller are represented there; they are not analysed on their own
         self.consumed = set()
+        nt = new_traits(F)
         for lst in self.inlined_into.values():
             for g in lst:
                 gf = F.fns.get(g)
-                if gf is not None and (gf.kind == "Closure" or "Public" not in (gf.vis or "") or gf.impl_trait == "std::ops::Drop"):
+                if gf is not None and (gf.kind == "Closure" or "Public" not in (gf.vis or "") or gf.impl_trait == "std::ops::Drop" or gf.impl_trait in nt
+                                       or (gf.parent or "") in nt):
                     self.consumed.add(g)
         self.fns = {p: f for p, f in allfns.items() if p not in self.consumed}
         self.all_fns = allfns
